@@ -18,7 +18,7 @@ from common import *
 
 # the specification models the repaired tree (see findings/known_findings.jsonl)
 FLAGS = dict(Transitive=True, TopoSort=True, ExitFix=True, OrderedAuto=True,
-             OrderedTopo=True, LoopFix=True, EndFix=True)
+             OrderedTopo=True, LoopFix=True, EndFix=True, AutoFaultFix=True)
 
 FORMULAS = {
     "C01": ["c01", "c01pred"],
